@@ -160,31 +160,37 @@ Print Assumptions add_circuit_aliases_refuted.
 (* ---------- non-vacuity: the hypotheses are satisfiable and the conclusions non-trivial ---------- *)
 Example good_flags_ok : flags_ok good_flags = true.
 Proof. exact good_flags_ok. Qed.
+Print Assumptions good_flags_ok.
 
 Example cbits_copied_ok :
   exists w' r, exec good_flags ex_world (CSimRun 0 (Ref 10) 1 [1]) = Some (w', r) /\
                nth_error (hp w') 10 = nth_error (hp ex_world) 10 /\
                meets (reachl FUEL (hp w') r) [10] = false.
 Proof. exact cbits_copied_ok. Qed.
+Print Assumptions cbits_copied_ok.
 
 Example passes_fresh_when_fixed :
   forall c, In c [CReverse (Ref 9); CChain (Ref 9) [1; 1; 0]; CResolve (Ref 9); CAdjacent (Ref 9); CAddCircuit (Ref 9)] ->
   exists w' r, exec good_flags ex_world c = Some (w', r) /\
                meets (reachl FUEL (hp w') r) (reachl FUEL (hp w') (Ref 9)) = false.
 Proof. exact passes_fresh_when_fixed. Qed.
+Print Assumptions passes_fresh_when_fixed.
 
 Example history_example :
   hist_guard good_flags ex_world ex_history = true /\ hist_wf good_flags ex_world ex_history /\
   exists w' rs, run_hist good_flags ex_world ex_history = Some (w', rs) /\ length rs = 8 /\ length (hp ex_world) < length (hp w').
 Proof. exact history_example. Qed.
+Print Assumptions history_example.
 
 Example result_fresh_example :
   exists w' l, exec good_flags ex_world (CSimStats 0 (Ref 10) 2) = Some (w', Ref l) /\ length (hp ex_world) <= l /\
                guard good_flags ex_world (CSimStats 0 (Ref 10) 2) = true /\ call_wf ex_world (CSimStats 0 (Ref 10) 2).
 Proof. exact result_fresh_example. Qed.
+Print Assumptions result_fresh_example.
 
 (* the defensive copy inside Instruction is needed: without it the caller's gate is sorted in place *)
 Example instr_copy_needed :
   exists w' r, exec no_instr_copy ex_world (CInstr (Ref 5)) = Some (w', r) /\
                nth_error (hp w') 4 <> nth_error (hp ex_world) 4.
 Proof. exact instr_copy_needed. Qed.
+Print Assumptions instr_copy_needed.
